@@ -135,13 +135,14 @@ class Frame:
 class Config:
     """What the interpreter needs to know about one crate's protocol code."""
 
-    def __init__(self, funcs, consts, local_fn_resolver, atomic_loc_of=None, extra_visible=None, extra_pure=()):
+    def __init__(self, funcs, consts, local_fn_resolver, atomic_loc_of=None, extra_visible=None, extra_pure=(), drop_hook=None):
         self.funcs = funcs
         self.consts = consts
         self.resolve_local = local_fn_resolver      # callee text -> Func or None
         self.atomic_loc_of = atomic_loc_of or (lambda frame, arg: "state")
-        self.extra_visible = extra_visible or (lambda callee, args, frame: None)
+        self.extra_visible = extra_visible or (lambda callee, args, frame, vals: None)
         self.extra_pure = tuple(extra_pure)
+        self.drop_hook = drop_hook or (lambda v: None)
 
 
 PURE_PASS_ARG0 = (
@@ -176,6 +177,8 @@ class Interp:
         m = re.match(r"^(-?\d+)_(u8|u16|u32|u64|usize|i8|i16|i32|i64|isize)$", c)
         if m:
             return int(m.group(1))
+        if c in self.cfg.consts:                       # module-qualified name, e.g. auto::IDLE
+            return self.cfg.consts[c]
         m = re.match(r"^(?:[A-Za-z_0-9:]+::)?([A-Z][A-Z0-9_]+)$", c)
         if m and m.group(1) in self.cfg.consts:
             return self.cfg.consts[m.group(1)]
@@ -227,6 +230,10 @@ class Interp:
     def assign(self, fr, dst, rv):
         rv = rv.strip()
         val = self.rvalue(fr, rv)
+        m = re.match(r"^Not\((.+)\)$", rv)
+        if m and fr.func.locals.get(dst, "") in ("u8", "u16", "u32", "u64", "usize"):
+            a = self.operand(fr, m.group(1))
+            val = None if not isinstance(a, int) else (~a) & 0xFF
         m = re.match(r"^(_\d+)$", dst)
         if m:
             fr.env[dst] = val
@@ -363,6 +370,11 @@ class Interp:
                 return ("VIS", stack, dict(kind="DROP_WAKER", line=line, next_bb=nxt, place=m.group(1)))
             if contains(v, lambda x: x == VALUE):
                 return ("VIS", stack, dict(kind="DROP_VALUE", line=line, next_bb=nxt, place=m.group(1)))
+            hk = self.cfg.drop_hook(v)
+            if hk is not None:
+                hk = dict(hk)
+                hk.update(line=line, next_bb=nxt, place=m.group(1))
+                return ("VIS", stack, hk)
             return self.goto(stack, nxt)
         m = re.match(r"^assert\((.+?), .*\) -> \[success: (bb\d+), unwind[^\]]*\];$", term)
         if m:
@@ -383,10 +395,10 @@ class Interp:
         fr = stack[-1]
         if ret_bb is None:        # diverging call: panic machinery
             return ("PANIC", "%s in %s @%s" % (callee.split("::")[-1], fr.func.short(), line))
+        vals = [self.operand(fr, x) for x in args]      # evaluated once (moves mark their source)
         a = re.search(r"Atomic::<(?:u8|usize|u32|u64|bool)>::(\w+)$", callee) or re.search(r"Atomic(?:U8|Usize|U32|U64|Bool)::(\w+)$", callee)
         if a:
             op = a.group(1)
-            vals = [self.operand(fr, x) for x in args]
             ords = [v[1] for v in vals if isinstance(v, tuple) and v and v[0] == "ORD"]
             ints = [v for v in vals[1:] if isinstance(v, int)]
             need = {"load": (0, 1), "store": (1, 1), "swap": (1, 1), "fetch_add": (1, 1), "fetch_sub": (1, 1), "fetch_and": (1, 1), "fetch_or": (1, 1),
@@ -396,7 +408,7 @@ class Interp:
             loc = self.cfg.atomic_loc_of(fr, args[0])
             return ("VIS", stack, dict(kind="ATOMIC", op=op.replace("_weak", ""), ints=ints, ords=ords, loc=loc, line=line, next_bb=ret_bb, dst=dst))
         if re.search(r"(^|::)fence$", callee):
-            v = self.operand(fr, args[0])
+            v = vals[0]
             if not (isinstance(v, tuple) and v[0] == "ORD"):
                 raise Unsupported("fence with untracked ordering @%s" % (line,))
             return ("VIS", stack, dict(kind="FENCE", ord=v[1], line=line, next_bb=ret_bb, dst=dst))
@@ -410,38 +422,46 @@ class Interp:
         if cell and re.search(r"::(write|assume_init_read|assume_init_drop|assume_init)$", callee):
             act = callee.rsplit("::", 1)[1]
             if act == "write":
-                v = self.operand(fr, args[1])
-                return ("VIS", stack, dict(kind="CELL", cell=cell, act="write", val=v, line=line, next_bb=ret_bb, dst=dst))
+                return ("VIS", stack, dict(kind="CELL", cell=cell, act="write", val=vals[1], line=line, next_bb=ret_bb, dst=dst))
             return ("VIS", stack, dict(kind="CELL", cell=cell, act={"assume_init_read": "take", "assume_init": "take", "assume_init_drop": "drop"}[act],
                                        line=line, next_bb=ret_bb, dst=dst))
         if re.search(r"<(?:std::task::)?Waker as (?:std::clone::)?Clone>::clone$", callee):
-            v = self.deref_alias(fr, self.operand(fr, args[0]))
+            v = self.deref_alias(fr, vals[0])
             if not (isinstance(v, tuple) and v[0] == "WAKERREF"):
                 raise Unsupported("clone of untracked waker @%s: %r" % (line, v))
             return ("VIS", stack, dict(kind="CLONE", waker=v[1], line=line, next_bb=ret_bb, dst=dst))
         if re.search(r"(^|::)Waker::wake$", callee):
-            v = self.operand(fr, args[0])
+            v = vals[0]
             if not is_waker(v):
                 raise Unsupported("wake of untracked waker @%s: %r" % (line, v))
             return ("VIS", stack, dict(kind="WAKE", line=line, next_bb=ret_bb, dst=dst, consume=True, held=v))
         if re.search(r"(^|::)Waker::wake_by_ref$", callee):
-            v = self.deref_alias(fr, self.operand(fr, args[0]))
+            v = self.deref_alias(fr, vals[0])
             return ("VIS", stack, dict(kind="WAKE", line=line, next_bb=ret_bb, dst=dst, consume=False, held=v))
-        ev = self.cfg.extra_visible(callee, args, fr)
+        if re.match(r"^std::mem::drop::<", callee):
+            v = vals[0]
+            if contains(v, is_waker):
+                return ("VIS", stack, dict(kind="DROP_WAKER", line=line, next_bb=ret_bb, place="-", dst=dst))
+            hk = self.cfg.drop_hook(v)
+            if hk is not None:
+                hk = dict(hk)
+                hk.update(line=line, next_bb=ret_bb, place="-", dst=dst)
+                return ("VIS", stack, hk)
+            return self.goto(stack, ret_bb)
+        ev = self.cfg.extra_visible(callee, args, fr, [self.deref_alias(fr, v) for v in vals])
         if ev is not None:
             ev = dict(ev)
             ev.update(line=line, next_bb=ret_bb, dst=dst)
-            ev["argvals"] = [self.operand(fr, x) for x in args]
             return ("VIS", stack, ev)
         fn = self.cfg.resolve_local(callee)
         if fn is not None:
             env = {}
-            for p, x in zip(fn.params, args):
-                env[p] = self.operand(fr, x)
+            for p, x in zip(fn.params, vals):
+                env[p] = x
             stack.append(Frame(fn, env, "bb0", dst, ret_bb))
             return None
         if "Result::<u8, u8>::is_ok" in callee or "Result::<u8, u8>::is_err" in callee:
-            v = self.deref_alias(fr, self.operand(fr, args[0]))
+            v = self.deref_alias(fr, vals[0])
             if not (isinstance(v, tuple) and v[0] == "ENUM"):
                 raise Unsupported("is_ok on untracked value @%s" % (line,))
             r = int(v[1] == "Ok") if callee.endswith("is_ok") else int(v[1] == "Err")
@@ -452,7 +472,7 @@ class Interp:
                 fr.env[dst] = None
             return self.goto(stack, ret_bb)
         if any(p in callee for p in PURE_PASS_ARG0):
-            v = self.operand(fr, args[0]) if args else None
+            v = vals[0] if vals else None
             if dst:
                 fr.env[dst] = v
             return self.goto(stack, ret_bb)
@@ -481,7 +501,7 @@ def result_domain(op):
         return ["TOKEN"]
     if op["kind"] == "CLONE":
         return ["TOKEN"]
-    if op["kind"] == "EXT" and op.get("results") is not None:
+    if op.get("results") is not None:
         return list(op["results"])
     return [None]
 
@@ -522,8 +542,8 @@ class Builder:
                 val = VALUE if op["cell"] == "value" else waker("cell")
             if op["kind"] == "CLONE":
                 val = waker(op["waker"])
-            if op["kind"] == "WAKE" and op.get("consume"):
-                pass
+            if op.get("result_value") is not None and res in op["result_value"]:
+                val = op["result_value"][res]
             if op["kind"] in ("DROP_WAKER", "DROP_VALUE"):
                 m = re.match(r"^(_\d+)$", op["place"])
                 if m:
